@@ -43,6 +43,8 @@ pub struct Weights {
     pub illegal: u32,
     /// add an external-file attachment (custom field) to an existing secret
     pub file_attach: u32,
+    /// export a folder and import it as a copy: the same secret ids then live in two folders
+    pub copy_folder: u32,
 }
 
 impl Weights {
@@ -52,7 +54,7 @@ impl Weights {
             create_folder: 3, rename_folder: 3, flags: 3, describe: 4, delete_folder: 2,
             file_create: 3, file_update: 2, relock: 3, resign: 2,
             compact: 0, compact_account: 0, change_folder_pw: 0, change_account_pw: 0, change_cipher: 0,
-            folder_api: 0, illegal: 3, file_attach: 0,
+            folder_api: 0, illegal: 3, file_attach: 0, copy_folder: 0,
         }
     }
     pub fn with_rewrites(mut self) -> Self {
@@ -72,22 +74,22 @@ impl Weights {
         self.file_update = 0;
         self
     }
-    fn list(&self) -> [u32; 23] {
+    fn list(&self) -> [u32; 24] {
         [
             self.create, self.update, self.delete, self.mov, self.archive, self.unarchive,
             self.create_folder, self.rename_folder, self.flags, self.describe, self.delete_folder,
             self.file_create, self.file_update, self.relock, self.resign,
             self.compact, self.compact_account, self.change_folder_pw, self.change_account_pw, self.change_cipher,
-            self.folder_api, self.illegal, self.file_attach,
+            self.folder_api, self.illegal, self.file_attach, self.copy_folder,
         ]
     }
 }
 
 /// Operation classes in the order of `Weights::list`.
-pub const CHOICES: [&str; 23] = [
+pub const CHOICES: [&str; 24] = [
     "create", "update", "delete", "move", "archive", "unarchive", "create_folder", "rename_folder", "flags", "describe", "delete_folder",
     "file_create", "file_update", "relock", "resign", "compact", "compact_account", "change_folder_pw", "change_account_pw", "change_cipher",
-    "folder_api", "illegal", "file_attach",
+    "folder_api", "illegal", "file_attach", "copy_folder",
 ];
 
 pub struct Driver {
@@ -210,7 +212,8 @@ impl Driver {
             19 => self.op_change_cipher(account).await,
             20 => self.op_folder_api(account).await,
             21 => self.op_illegal(account).await,
-            _ => self.op_file_attach(account).await,
+            22 => self.op_file_attach(account).await,
+            _ => self.op_copy_folder(account).await,
         };
         let out = match out {
             Some(o) => o,
@@ -545,6 +548,39 @@ impl Driver {
         };
         let _ = std::fs::remove_file(&path);
         Some(StepOutcome { op, kind: "file_create", legal: true, result, touched: vec![f], rewrote: vec![] })
+    }
+
+    /// Export a folder and import the buffer as a copy (`overwrite = false`): the copy gets a
+    /// new folder id but keeps the secret ids, so one secret id is live in two folders.
+    async fn op_copy_folder(&mut self, account: &mut LocalAccount) -> Option<StepOutcome> {
+        if self.model.view.folders.len() >= self.max_folders {
+            return None;
+        }
+        let ids = self.folder_ids();
+        // folders without external files (a copied blob reference is another story)
+        // and not the special folders: a copy keeps the flags, and two "archive" folders are
+        // not a state the account API defines
+        let candidates: Vec<VaultId> = ids
+            .into_iter()
+            .filter(|f| self.model.view.folders.get(f).map(|v| v.flags & 0xff == 0).unwrap_or(false))
+            .filter(|f| !self.model.live_secrets().iter().any(|(lf, s)| lf == f && self.file_plain.contains_key(s)))
+            .collect();
+        if candidates.is_empty() {
+            return None;
+        }
+        let f = *self.rng.pick(&candidates);
+        let key: AccessKey = crate::setup::new_password(&mut self.rng).into();
+        let op = format!("copy_folder({f})");
+        let result: Result<(), String> = async {
+            let buf = account.export_folder_buffer(&f, key.clone(), false).await.map_err(|e| format!("export_folder_buffer: {e}"))?;
+            account.import_folder_buffer(&buf, key, false).await.map_err(|e| format!("import_folder_buffer: {e}"))?;
+            // the copy is adopted from what the account serves (this op is not what the model judges)
+            let (view, _) = crate::snapshot::live(account).await.map_err(|e| format!("{} {}", e.class, e.detail))?;
+            self.model = AccountModel::from_view(view);
+            Ok(())
+        }
+        .await;
+        Some(StepOutcome { op, kind: "copy_folder", legal: true, result, touched: self.folder_ids(), rewrote: vec![] })
     }
 
     /// Attach an external file (a custom field holding a file secret) to a live secret: the
